@@ -78,6 +78,7 @@ type concSession struct {
 	worker    map[uint64]int
 	answering map[uint64]bool
 	closedLog bool
+	paused    int
 	nlate     int
 	notes     []string
 
@@ -129,6 +130,17 @@ func kindStr(fc *go9p.Fcall) string {
 // hook: called by the library at its schedule points
 func (s *concSession) hook(point string, obj interface{}, a, b uint32) {
 	s.hookLocked(point, obj, a, b)
+	// a goroutine the plan wants to hold at a schedule point outside every lock
+	if point == "respond.guarded" {
+		if v, ok := pauseAt.Load(gid()); ok {
+			ch := v.(chan bool)
+			pauseAt.Delete(gid())
+			s.mu.Lock()
+			s.paused++
+			s.mu.Unlock()
+			<-ch
+		}
+	}
 	// two goroutines answering one request at the same moment leave respond.enter together
 	if point == "respond.enter" {
 		if r, ok := obj.(*go9p.SrvReq); ok {
@@ -143,6 +155,7 @@ func (s *concSession) hook(point string, obj interface{}, a, b uint32) {
 }
 
 var parBarrier sync.Map // *SrvReq -> *int32
+var pauseAt sync.Map    // goroutine id -> chan bool: hold that goroutine at respond.guarded
 
 func (s *concSession) hookLocked(point string, obj interface{}, a, b uint32) {
 	g := gid()
@@ -1115,6 +1128,85 @@ func concDisconnectVersion(maxpend int, nver int) string {
 	return s.finish("discver", nil)
 }
 
+// kind "lateanswer": a second answer to request A passes the already-answered test, is then
+// delayed until A's reply was sent and A's buffer was recycled to request B, and packs only
+// while B's reply is being written: B's bytes on the wire must still be B's
+func concLateAnswer(maxpend int) string {
+	s := newConcSession(maxpend, false)
+	s.setup()
+	s.send(mkFrame(&gmsg{kind: go9p.Tread, a: 0, b: 0, c: 64}, true, 1000))
+	a := s.waitReq(1000, 2*time.Second)
+	if a == nil {
+		return s.finish("lateanswer", nil)
+	}
+	deadline := time.Now().Add(2 * time.Second)
+	for time.Now().Before(deadline) {
+		s.mu.Lock()
+		c := a.called
+		s.mu.Unlock()
+		if c {
+			break
+		}
+		time.Sleep(20 * time.Microsecond)
+	}
+	// the late answerer: passes the test now, packs much later
+	gate := make(chan bool)
+	lateDone := make(chan bool)
+	go func() {
+		g := gid()
+		pauseAt.Store(g, gate)
+		s.mu.Lock()
+		s.answering[g] = true
+		a.answers++
+		s.mu.Unlock()
+		a.req.RespondRread([]byte("LATE-ANSWER-FOR-A-LATE-ANSWER-FOR-A-LATE-ANSWER-FOR-A"))
+		s.mu.Lock()
+		delete(s.answering, g)
+		s.mu.Unlock()
+		pauseAt.Delete(g)
+		close(lateDone)
+	}()
+	deadline = time.Now().Add(2 * time.Second)
+	for time.Now().Before(deadline) {
+		s.mu.Lock()
+		p := s.paused
+		s.mu.Unlock()
+		if p > 0 {
+			break
+		}
+		time.Sleep(20 * time.Microsecond)
+	}
+	// the regular answer: A is answered, its reply sent, its buffer recycled
+	a.released <- concAction{answers: 1, payload: []byte("first-answer-for-A")}
+	gateOpen := false
+	if !s.waitReplies(3, 300*time.Millisecond) {
+		// the test and the pack are one critical section: the held answerer holds the request's
+		// lock and the regular answer waits for it. Let it go: it becomes the first answer.
+		close(gate)
+		gateOpen = true
+		s.waitReplies(3, 2*time.Second)
+	}
+	time.Sleep(300 * time.Microsecond)
+	// B takes the recycled buffer; its reply is held in the Write
+	s.conn.setHoldWrites(true)
+	s.send(mkFrame(&gmsg{kind: go9p.Tread, a: 0, b: 0, c: 64}, true, 1001))
+	s.releaseRange(1001, 1002, 1, "the-answer-for-B-the-answer-for-B-the-answer-for-B-the-answer-for-B")
+	deadline = time.Now().Add(2 * time.Second)
+	for s.conn.writersBlocked() == 0 && time.Now().Before(deadline) {
+		time.Sleep(20 * time.Microsecond)
+	}
+	if !gateOpen {
+		close(gate) // now the late answerer packs
+	}
+	select {
+	case <-lateDone:
+	case <-time.After(2 * time.Second):
+	}
+	s.conn.setHoldWrites(false)
+	s.waitReplies(4, 2*time.Second)
+	return s.finish("lateanswer", nil)
+}
+
 func modeSrvconc(tier string, args []string) {
 	rounds := 6
 	if tier == "thorough" {
@@ -1143,6 +1235,7 @@ func modeSrvconc(tier string, args []string) {
 				jobs = append(jobs, func() string { return concGroup(mp, n) })
 			}
 			jobs = append(jobs, func() string { return concSlowWrite(mp) })
+			jobs = append(jobs, func() string { return concLateAnswer(mp) })
 			jobs = append(jobs, func() string { return concSlowDestroy(mp) })
 			for tk := 0; tk <= 4; tk++ {
 				tk := tk
